@@ -22,6 +22,14 @@ enum class ExpandConfig {
 namespace Random {
 namespace {
 std::mt19937 gen(std::random_device{}());
+#ifdef TEAKRA_VERIF
+} // Anonymous namespace
+// Verification hook: make the generator a pure function of a caller-supplied seed.
+void VerifSetSeed(u32 seed) {
+    gen.seed(seed);
+}
+namespace {
+#endif
 
 u64 uniform(u64 a, u64 b) {
     std::uniform_int_distribution<u64> dist(a, b);
